@@ -246,6 +246,18 @@ func (u *Unit) typeInv(v Val) string {
 		case types.Int32:
 			return sAnd(app(">=", v.T, "(- 2147483648)"), app("<=", v.T, "2147483647"))
 		}
+	case *types.Array:
+		// arrays of scalars are canonical: zero outside their bounds, so that SMT array equality
+		// coincides with Go's element-wise comparison
+		if eb, ok := t.Elem().Underlying().(*types.Basic); ok && eb.Info()&(types.IsInteger|types.IsBoolean) != 0 {
+			z := "0"
+			if eb.Info()&types.IsBoolean != 0 {
+				z = "false"
+			}
+			u.nfresh++
+			i := fmt.Sprintf("ti!%d", u.nfresh)
+			return fmt.Sprintf("(forall ((%s Int)) (! (=> (or (< %s 0) (>= %s %d)) (= (select %s %s) %s)) :pattern ((select %s %s))))", i, i, i, t.Len(), v.T, i, z, v.T, i)
+		}
 	case *types.Struct:
 		var cs []string
 		for i := 0; i < t.NumFields(); i++ {
@@ -538,6 +550,8 @@ func (u *Unit) arith(st *State, op token.Token, a, b Val, rt types.Type, pos tok
 	case token.AND, token.OR, token.XOR, token.AND_NOT:
 		name := map[token.Token]string{token.AND: "bitand", token.OR: "bitor", token.XOR: "bitxor", token.AND_NOT: "bitandnot"}[op]
 		u.declareBitops()
+		u.bitLiteral(a.T)
+		u.bitLiteral(b.T)
 		t = app(name, pow2Lit(a.T), pow2Lit(b.T))
 	default:
 		u.unsupported(pos, "operator %s", op)
@@ -1313,4 +1327,24 @@ func (u *Unit) checkParamElemWrite(st *State, x *ast.IndexExpr) {
 			u.oblige("frame", "param."+id.Name+"."+u.safeLabel("paramwrite"), x.Pos(), st, "false", "element of slice parameter "+id.Name+" is written but the contract has no `writes "+id.Name+"`")
 		}
 	}
+}
+
+// bitLiteral states the bits of a numeric literal that is not a power of two.
+func (u *Unit) bitLiteral(t string) {
+	if !isLit(t) || pow2Lit(t) != t {
+		return
+	}
+	v, err := strconv.ParseUint(t, 10, 64)
+	if err != nil || v == 0 {
+		return
+	}
+	var cs []string
+	for i := 0; i < 64; i++ {
+		b := app("bit", t, strconv.Itoa(i))
+		if v&(1<<uint(i)) == 0 {
+			b = sNot(b)
+		}
+		cs = append(cs, b)
+	}
+	u.d.axiom("bitlit."+t, sAnd(cs...))
 }
